@@ -20,6 +20,16 @@
 (*             cfg / docs / rep: what changed in the observation since the previous step (the harness        *)
 (*                  compares deep snapshots): <<b, value>>, <<d, value>>, <<c, section value, options value>> *)
 (* JSON form of a value: [k |-> "x"|"d"|"m", v |-> id, e |-> << <<key, value>>, ... >>]                       *)
+(*                                                                                                        *)
+(* What is asserted, per step (clauses as in DESIGN Appendix A):                                          *)
+(*   merge.precedence / default_marker / deep_union  the observed configuration of the step's builder       *)
+(*        Match-es Merge(previous, source) (effective values; AnyV where the statement is silent); at        *)
+(*        create also what the new context reports (section and options, options through GroupApply)        *)
+(*   merge.doc_unmodified   every document still equals its initial snapshot (markers included)             *)
+(*   merge.ctx_stable       every other builder's configuration and every context of another builder        *)
+(*        shows exactly what it showed before the step                                                     *)
+(* Not asserted: a builder used again after it created a context, and its contexts (ambiguity register).    *)
+(* Overrides take effect at create (documented and doctested in set_target_language_configuration_override). *)
 EXTENDS ConfigMergeP, Json, IOUtils, TLC
 
 Trace == ndJsonDeserialize(IOEnv.TRACE_FILE)
@@ -97,15 +107,11 @@ Step(st, r, i) ==
         block == IF s.op = "create" THEN Block(merged, r) ELSE <<>>
         grouped == block # <<>>
         expCfg == IF grouped THEN Put(merged, r.optkey, M(GroupLoose(merged[r.optkey].m, block))) ELSE merged
-        expOpts == IF r.optkey = 0 THEN Any
+        expOpts == IF r.optkey = 0 THEN AnyV
                    ELSE IF r.optkey \in DOMAIN merged /\ IsMap(merged[r.optkey])
                         THEN (IF grouped THEN M(GroupApply(merged[r.optkey].m, block, ment)) ELSE merged[r.optkey])
-                   ELSE Any
-        (* while overrides are pending the statement fixes only what the created context will report, not when the    *)
-        (* builder folds them in: the intermediate configuration is then not asserted                                 *)
-        pending == known /\ st.ppend[b] # <<>>
-        checked == /\ s.op \in {"new", "upd", "create"} /\ ~nowLoose /\ ~(s.op = "new" /\ s.d = 0) /\ s.blind = 0
-                   /\ ~(s.op = "upd" /\ pending)
+                   ELSE AnyV
+        checked == s.op \in {"new", "upd", "create"} /\ ~nowLoose /\ ~(s.op = "new" /\ s.d = 0) /\ s.blind = 0
         srcs == (IF known /\ b \in DOMAIN st.unseen THEN st.unseen[b] ELSE <<>>) \o <<src>>
         cfgBad == IF checked THEN MergeClauses(M(expCfg), ocfg[b], srcs) ELSE {}
         repBad == IF s.op = "create" /\ ~nowLoose
@@ -124,7 +130,7 @@ Step(st, r, i) ==
                   THEN {"merge.ctx_stable"} ELSE {}
         bad == cfgBad \cup repBad \cup docBad \cup ctxBad
         (* continue from what the implementation shows, so that one deviation is reported once *)
-        resync == s.blind = 0 /\ ~(s.op = "upd" /\ pending) /\ (cfgBad # {} \/ nowLoose) /\ b \in DOMAIN ocfg /\ IsMap(ocfg[b])
+        resync == s.blind = 0 /\ (cfgBad # {} \/ nowLoose) /\ b \in DOMAIN ocfg /\ IsMap(ocfg[b])
         pnew == IF s.op \in {"new", "upd", "create"} THEN (IF resync THEN ocfg[b].m ELSE expCfg) ELSE merged
     IN [pcfg |-> IF s.op = "obs" THEN st.pcfg ELSE Put(st.pcfg, b, pnew),
         ppend |-> IF s.op = "new" THEN Put(st.ppend, b, <<>>)
